@@ -13,6 +13,7 @@ import (
 	"os"
 	"os/exec"
 	"path/filepath"
+	"runtime/pprof"
 	"sort"
 	"strconv"
 	"strings"
@@ -29,6 +30,7 @@ type Check struct {
 	Assume   []string
 	Workers  int // 0 = 16
 	Serial   bool // run in the parent process only (no sharding)
+	WorkerProcs int // GOMAXPROCS of each worker (0 = 2)
 	Run      func(c *Ctx)
 	Replay   func(c *Ctx, payload json.RawMessage) // re-executes one recorded case
 	QuickBudget, ThoroughBudget time.Duration
@@ -324,7 +326,15 @@ func workerMain(args []string) {
 	c := newCtx(id, tier, seed, shard, n, time.Duration(bs*float64(time.Second)))
 	os.Setenv("VERIF_SCRATCH", filepath.Join(os.Getenv("VERIF_SCRATCH"), fmt.Sprintf("w%d", shard)))
 	os.MkdirAll(os.Getenv("VERIF_SCRATCH"), 0755)
-	chk.Run(c)
+	if pf := os.Getenv("VERIF_PPROF"); pf != "" {
+		f, _ := os.Create(fmt.Sprintf("%s.%d", pf, shard))
+		pprof.StartCPUProfile(f)
+		chk.Run(c)
+		pprof.StopCPUProfile()
+		f.Close()
+	} else {
+		chk.Run(c)
+	}
 	b, _ := json.Marshal(&c.p)
 	if err := os.WriteFile(out+".tmp", b, 0644); err != nil {
 		fmt.Fprintln(os.Stderr, err)
@@ -416,7 +426,11 @@ func parentMain(chk *Check, tier string, seed int64, base string) int {
 					logf := filepath.Join(base, fmt.Sprintf("log-%d.txt", i))
 					lf, _ := os.Create(logf)
 					cmd.Stdout, cmd.Stderr = lf, lf
-					cmd.Env = append(os.Environ(), "GOMAXPROCS=2")
+					wp := chk.WorkerProcs
+					if wp == 0 {
+						wp = 2
+					}
+					cmd.Env = append(os.Environ(), fmt.Sprintf("GOMAXPROCS=%d", wp))
 					done := make(chan error, 1)
 					cmd.Start()
 					go func() { done <- cmd.Wait() }()
